@@ -4,6 +4,7 @@ import (
 	"bytes"
 	"io"
 	"net/http"
+	"net/url"
 
 	"github.com/johannesboyne/gofakes3"
 	"github.com/johannesboyne/gofakes3/internal/vsym"
@@ -258,7 +259,7 @@ func VH_C10h() {
 	k1 := vsym.String("key", kl)
 	for i := 0; i < kl; i++ {
 		c := k1[i]
-		vsym.Assume(c == '%' || c == '4' || c == '1' || c == '2' || c == '5' || c == 'A' || c == 'r' || c == 'x')
+		vsym.Assume(c == '%' || c == '4' || c == '1' || c == '2' || c == '5' || c == 'A' || c == 'r' || c == 'x' || c == '/')
 	}
 	snap := func() []objSnap {
 		var f []objSnap
@@ -268,9 +269,24 @@ func VH_C10h() {
 		return f
 	}
 	before := snap()
-	op := vsym.Choice("op", 3)
+	op := vsym.Choice("op", 4)
+	if op != 3 {
+		// the router trims slashes at the end of the path: such a key cannot be named in a URL
+		vsym.Assume(k1[kl-1] != '/')
+	}
 	wrote := false
 	switch op {
+	case 3: // multi-delete naming the key in the request document
+		rq := BodyReq("POST", "/bkt", nil, DeleteBody([]gofakes3.ObjectID{{Key: k1}}, false))
+		rq.Query = url.Values{"delete": {""}}
+		r := Do(h, rq)
+		wrote = r.Code() == 200
+		if wrote {
+			// whatever the answer says about k1, k1 is what it was about
+			got := readObj(b, "bkt", k1)
+			dk, _, _ := r.Deleted()
+			vsym.Assert(!got.ok || len(dk) == 0, "C10h/multi-delete-reported-but-not-done")
+		}
 	case 0:
 		r := Do(h, BodyReq("PUT", "/bkt/"+k1, http.Header{"X-Amz-Meta-A": {"new"}}, []byte("N")))
 		wrote = r.Code() == 200
@@ -298,7 +314,7 @@ func VH_C10h() {
 	}
 	ks, _ := listKeys(b, "bkt")
 	for _, k := range fixed {
-		if wrote && op == 1 && k == k1 {
+		if wrote && (op == 1 || op == 3) && k == k1 {
 			continue
 		}
 		found := false
